@@ -7,6 +7,7 @@ func init() {
 		ID:    "C18",
 		Title: "Templates are addressable by relative name; a bad file fails loading cleanly",
 		Rules: []string{
+			"R-LOADALL: in the loader's loop a program is registered only after both linkers ran (must-pass-through), and a pass ends by registering, by failing or over the HasReserveStmt() edge",
 			"R-LAYOUT (tables / alias): Reserves, Inserts and Components of a parsed program are written by the parser only; ~ expands only as the first character",
 			"R-FORMAT: every printf-like call (fmt family, and the module functions that hand a parameter on as a format: fail.New, newError, ...) gets a constant format, or the caller's own format parameter",
 			"R-NILERR: every nil result of a parse function is preceded by a recorded error (a truncated file is not loaded silently)",
@@ -19,6 +20,7 @@ func init() {
 		NotDecided:  "TODO",
 		Assumptions: trustedBase,
 		Run: func(m *Model, s *Sink) {
+			m.RunLoadAll(s, "R-LOADALL") // no file of the directory is skipped; every program is linked before it is registered
 			m.RunLayout(s, "R-LAYOUT")
 			m.RunProgramTables(s, "R-LAYOUT")                                            // a file is a layout because it declares reserves, also after linking
 			m.RunFormat(s, "R-FORMAT", m.reachableFns(m.Roots().Load, m.Roots().Render)) // no text of a template, a path or an error is used as a printf format
